@@ -9,9 +9,23 @@
 #ifndef NCAP
 #define NCAP 8            /* array-capacity bound for quantified input facts */
 #endif
+#ifndef NZCAP
+#define NZCAP (2 * NCAP)   /* capacity of subscript / value arrays */
+#endif
+#ifndef RCAP
+#define RCAP 2             /* capacity: number of right-hand sides */
+#endif
+#ifndef LDCAP
+#define LDCAP (NCAP + 1)   /* capacity: leading dimension of dense matrices */
+#endif
 
 /* ---- ghost indices: never assigned by code; "for the entry g_i ..." == forall ------------- */
 extern int g_i, g_j, g_k, g_l;
+/* a second set for driver units (their replaced callees constrain g_i..g_l in their own requires) */
+extern int g_a, g_b, g_c, g_d;
+/* ghost abbreviations: constrained in requires to equal a (quantified) predicate of the pre-state, so the
+ * quantifier is expanded once instead of in every clause that mentions it */
+extern int g_p0, g_p1, g_p2, g_p3;
 
 /* ---- ghost allocation ledger (USER_MALLOC/USER_FREE are mapped onto these) ---------------- */
 extern long g_live;                 /* library-owned live heap blocks */
